@@ -86,20 +86,16 @@ def compose(db, ctx):
             if c.get("k") == "MethodCall" and c.get("method") in ("push", "extend", "extend_from_slice", "insert") and local_name(c["recv"]) == "target_mapping":
                 arg = c["args"][-1]
                 n += 1
-                og = origins(db, f, arg, depth=0)
-                from_src = False
-                for x, _ in walk(arg):
-                    if x.get("k") == "Index" and local_name(x["e"]) == "source_mapping":
-                        from_src = True
-                # locals bound from source_mapping[..]
-                for o in og:
-                    if o[0] == "param" and "source_mapping" in render(arg):
-                        from_src = True
-                nm_local = local_name(arg)
-                if nm_local and not from_src:
-                    for n2, _ in walk(f.hir):
-                        if n2.get("k") == "Let" and n2["pat"].get("name") == nm_local and "init" in n2:
-                            from_src = any(x.get("k") == "Index" and local_name(x["e"]) == "source_mapping" for x, _ in walk(n2["init"]))
+                from ..db import walk_x
+                # the element value(s) this call stores: push(v) -> v; extend(iter) -> what the iterator yields (the body of a
+                # trailing .map(|..| v), else the elements of the iterated collection)
+                val = peel(arg)
+                if c["method"] in ("extend", "extend_from_slice"):
+                    while val.get("k") == "MethodCall" and val.get("method") in ("iter", "copied", "cloned", "into_iter", "by_ref"):
+                        val = peel(val["recv"])
+                    if val.get("k") == "MethodCall" and val.get("method") == "map" and val["args"] and peel(val["args"][0]).get("k") == "Closure":
+                        val = peel(peel(val["args"][0])["body"])
+                from_src = any(x.get("k") == "Index" and local_name(x["e"]) == "source_mapping" for x, _ in walk_x(val))
                 direct_pos = any(x.get("k") == "Field" and x.get("name") in ("start", "end") and not any(True for _ in []) for x, _ in walk(arg)
                                  ) and not from_src
                 ctx.ob("%s|%s#%d" % (nm, c["method"], n), from_src and not direct_pos,
